@@ -268,3 +268,11 @@ func NewTCPConn(c net.Conn, o TCPOpts) (*client.Conn, error) {
 	opts = append(opts, o.Extra...)
 	return tcp.Client(c, opts...)
 }
+
+// AnnounceBlockwise plays the peer's capabilities message csm (which carries Block-Wise-Transfer) into c and returns once
+// the connection has PROCESSED it - not merely read it: a request issued before that bypasses the connection's block-wise
+// layer, and which of the two happens first is otherwise up to the scheduler.
+func AnnounceBlockwise(c *ScriptConn, cc *client.Conn, csm []byte) bool {
+	c.Feed(csm)
+	return WaitFor(10*time.Second, cc.VerifPeerBlockwise)
+}
